@@ -1,6 +1,8 @@
 (* Props_C07.v — pinned statements for C07: tagged rules are active exactly when their tag is
    enabled; the tag mutators are set assignment / union / difference; reload keeps the set. *)
 From Adb Require Import Base Generated Hashing Net_Model Net_Proofs C07_Model C07_Proofs.
+From Adb Require Struct_Tags_Proofs.
+From Coq Require Import String.
 
 Theorem C07_use_tags_assign : forall h b ts t, tag_exists (use_tags h b ts) t = mem_str t ts.
 Proof. exact use_tags_assign. Qed.
@@ -105,3 +107,58 @@ Theorem C07_src_check_is_model : forall (matches : rule -> bool) (pr : list N) (
   Struct_Check_Proofs.interp_check matches pr mr fc b = blocker_check_p matches pr mr fc b.
 Proof. exact Struct_Check_Proofs.interp_check_is_model. Qed.
 Print Assumptions C07_src_check_is_model.
+
+(* ---- the tag operations of src/blocker.rs and their forwarders in src/engine.rs, as the
+   translator extracts them on every run (Generated.TagGen), interpreted over the model ---- *)
+Theorem C07_src_tag_ops_are_model :
+  forall (h : str -> N) (b : blocker) (ts : list str) (t : str),
+  Struct_Tags_Proofs.set_denotes TagGen.use_tags_set (fun x : str => mem_str x ts) (tag_exists b) t =
+  Some (tag_exists (use_tags h b ts) t) /\
+  Struct_Tags_Proofs.set_denotes TagGen.enable_tags_set (fun x : str => mem_str x ts) (tag_exists b) t =
+  Some (tag_exists (enable_tags h b ts) t) /\
+  Struct_Tags_Proofs.set_denotes TagGen.disable_tags_set (fun x : str => mem_str x ts) (tag_exists b) t =
+  Some (tag_exists (disable_tags h b ts) t).
+Proof. exact Struct_Tags_Proofs.tag_ops_are_model. Qed.
+Print Assumptions C07_src_tag_ops_are_model.
+
+Theorem C07_src_engine_forwards :
+  forall (h : str -> N) (n m : string) (b : blocker) (ts : list str) (t : str)
+    (f g : blocker -> list str -> blocker),
+  In (n, m) TagGen.engine_forwards ->
+  Struct_Tags_Proofs.op_named h m = Some f ->
+  Struct_Tags_Proofs.op_named h n = Some g ->
+  tag_exists (f b ts) t = tag_exists (g b ts) t /\
+  Struct_Tags_Proofs.set_denotes (Struct_Tags_Proofs.set_of_op n) (fun x : str => mem_str x ts) (tag_exists b) t =
+  Some (tag_exists (f b ts) t).
+Proof. exact Struct_Tags_Proofs.engine_forwards_to_same_op. Qed.
+Print Assumptions C07_src_engine_forwards.
+
+Theorem C07_src_tags_with_set_is_model :
+  forall (h : str -> N) (b : blocker) (T : list str),
+  TagGen.tws_first_assigns_enabled = true /\
+  TagGen.tws_rebuilds = "filters_tagged"%string /\
+  TagGen.tws_clears_regex_cache = true /\
+  b_tags (tags_with_set h b T) = T /\
+  match Struct_Tags_Proofs.source_named TagGen.tws_source b with
+  | Some src =>
+      Some
+        (fl_new h
+           (filter
+              (fun f : rule =>
+               match Struct_Tags_Proofs.keep_denotes TagGen.tws_keep T f with
+               | Some v => v
+               | None => false
+               end) src))
+  | None => None
+  end = Some (b_tagged (tags_with_set h b T)) /\
+  b_tagged_all (tags_with_set h b T) = b_tagged_all b /\
+  b_filters (tags_with_set h b T) = b_filters b /\
+  b_exceptions (tags_with_set h b T) = b_exceptions b /\
+  b_importants (tags_with_set h b T) = b_importants b /\
+  b_redirects (tags_with_set h b T) = b_redirects b /\
+  b_csp (tags_with_set h b T) = b_csp b /\
+  b_removeparam (tags_with_set h b T) = b_removeparam b /\
+  b_generic_hide (tags_with_set h b T) = b_generic_hide b.
+Proof. exact Struct_Tags_Proofs.tags_with_set_is_model. Qed.
+Print Assumptions C07_src_tags_with_set_is_model.
+
